@@ -1,5 +1,6 @@
 import Driver.Common
 import OrdModel.Wallet.Batch
+import OrdModel.Wallet.BatchCommit
 import OrdModel.Generated.BatchFix
 /- Line handlers for the batch engine (C21).  `none` = not one of ours. -/
 namespace Driver.Batch
@@ -75,7 +76,47 @@ def checkCommit (reinscribe : Bool) (flags : List String) : Bool :=
   flags.all (fun f => f == "000" || (reinscribe && f == "100")) &&
     (flags.filter (· == "100")).length ≤ 1
 
+/-! ### the commit guard (`OrdModel.Wallet.BatchCommit`); an outpoint is the text `txid:vout` -/
+
+open Ord.BatchCommit in
+/-- `txid:vout:offset` -/
+def parseSatpoint (s : String) : Option (String × Nat) :=
+  match s.splitOn ":" with
+  | [t, v, o] => do some (t ++ ":" ++ v, ← o.toNat?)
+  | _ => none
+
+def showSatpoint (sp : String × Nat) : String := s!"{sp.1}:{sp.2}"
+
+/-- `txid:vout/value/<locked><runic>` -/
+def parseUtxo (s : String) : Option (Ord.BatchCommit.Utxo String) :=
+  match s.splitOn "/" with
+  | [op, v, "00"] => do some ⟨op, ← v.toNat?, false, false⟩
+  | [op, v, "01"] => do some ⟨op, ← v.toNat?, false, true⟩
+  | [op, v, "10"] => do some ⟨op, ← v.toNat?, true, false⟩
+  | [op, v, "11"] => do some ⟨op, ← v.toNat?, true, true⟩
+  | _ => none
+
+/-- `observe`: `dry` = the satpoint only; `real` = satpoint and `reinscription`; `later` = the
+implementation got past the guard and failed afterwards (nothing but the passing is observable) -/
+def guardAnswer (observe : String) :
+    Except (Ord.BatchCommit.GuardError String) ((String × Nat) × Bool) → String
+  | .ok (s, r) =>
+    if observe == "later" then "ok-later"
+    else if observe == "real" then s!"ok {showSatpoint s} {if r then 1 else 0}"
+    else s!"ok {showSatpoint s}"
+  | .error .noCardinals => "err no-cardinals"
+  | .error (.alreadyInscribed hit) => s!"err already-inscribed {showSatpoint hit}"
+  | .error .notAReinscription => "err not-a-reinscription"
+
 def handle : List String → Option String
+  | ["batch.guard", reinscribe, explicit, utxos, ins, observe] =>
+    match (if explicit == "none" then some none else (parseSatpoint explicit).map some),
+        (strList utxos).mapM parseUtxo, (strList ins).mapM parseSatpoint with
+    | some ex, some us, some is =>
+      if (reinscribe == "0" || reinscribe == "1") && (observe == "dry" || observe == "real" || observe == "later") then
+        some (guardAnswer observe (Ord.BatchCommit.commitGuard ⟨us, is⟩ (reinscribe == "1") ex))
+      else some "bad-op"
+    | _, _, _ => some "bad-op"
   | ["batch.probe.dup_parents", _] => some "ok"
   /- `inputOps` = the parents' and satpoints' outpoints as the generator knows them -/
   | ["batch.layout.dry", mode, entries, parents, premine, inputOps] =>
